@@ -39,6 +39,7 @@ type Hold struct {
 	At       time.Time
 	Done     bool
 	Released bool
+	RelStep  int           // step at which the hold was released
 	HeldFor  time.Duration // fake time the goroutine was kept parked (set at release, corrected when it gets the lock)
 }
 
@@ -182,6 +183,7 @@ func (r *Run) releaseHold(h *Hold) {
 		h.Released = true
 		h.W.Held = false
 		h.HeldFor = time.Since(h.At)
+		h.RelStep = r.Step
 		r.Stats.InjectedDelayNs += int64(time.Since(h.At))
 		r.Logf("hold released: %s", h.W.Sig)
 	}
